@@ -2,361 +2,546 @@
 
 Tie: (a) translator: every `add_constraint` call site is regenerated into Gen.constraints and the
 matrix theorems of Props/C07.lean are re-decided; (b) exhaustive dynamic matrix: probe components
-obtain every kind of handle during setup and issue every service call from their hooks in every
-state in which a component can run code; refused (ConstraintError) / admitted is compared with the
-model's `permittedAt` and with the property's own rule.
+(vcheck/c07_probes.py) obtain every kind of handle during setup - through the Builder interfaces, the managers,
+the Component helpers, before / after the object they name exists - and issue every service call in every state
+in which code can run, from every calling context (listeners, simulant initializers at creation and at a birth,
+inside a pipeline source / modifier, between the context's methods, after a dill backup / restore, after other
+simulations in the same process); refused (ConstraintError) / admitted is compared with the stateful Lean model of
+`ConstraintMaker` (Model/Services.lean, replayed operation by operation) and with the property's own rule, and an
+admitted call must WORK (result and effect derived from the case's configuration).
 """
 from __future__ import annotations
 
 import random
 
-from .. import impl
 from ..runner import Prop
 
 STATES = ["setup", "post_setup", "population_creation", "time_step__prepare", "time_step", "time_step__cleanup",
           "collect_metrics", "simulation_end", "report"]
-REG = {"register_listener": ("framework/event.py", "self.register_listener"),
-       "register_value_producer": ("framework/values.py", "self.register_value_producer"),
-       "register_value_modifier": ("framework/values.py", "self.register_value_modifier"),
-       "initializes_simulants": ("framework/population/manager.py", "self.register_simulant_initializer"),
-       "get_simulant_creator": ("framework/population/manager.py", "self.get_simulant_creator"),
-       "get_stream": ("framework/randomness/manager.py", "self.get_randomness_stream"),
-       "build_table": ("framework/lookup/manager.py", "self.build_table")}
-READ = {"view.get": ("framework/population/manager.py", "view.get"),
-        "pipeline": ("framework/values.py", "pipeline._call"),
-        "get_draw": ("framework/randomness/manager.py", "stream.get_draw"),
-        "filter_for_probability": ("framework/randomness/manager.py", "stream.filter_for_probability"),
-        "filter_for_rate": ("framework/randomness/manager.py", "stream.filter_for_rate"),
-        "choice": ("framework/randomness/manager.py", "stream.choice"),
-        "table": ("framework/lookup/manager.py", "table.call")}
-WRITE = {"view.update": ("framework/population/manager.py", "view.update"),
-         "register_simulants": ("framework/randomness/manager.py", "self.register_simulants")}
-SUB = {"subview.get": None, "subview.update": None}   # handles returned by PopulationView.subview (no table entry)
-SERVICES = {**REG, **READ, **WRITE}
-# further kinds of handle for the same services (each must obey the same rule)
-VARIANTS = ["get_stream@crn", "register_value_producer@rate", "register_value_modifier@step_size", "build_table@frame",
-            "pipeline@skip_post", "pipeline@rate_skip_post", "view.get@extra_query", "choice@weights", "get_draw@additional_key",
-            "view.get@query", "view.get@all", "view.update@query", "view.update@all", "pipeline@rate", "pipeline@get_value",
-            "sample_from_distribution", "get_draw@crn", "filter_for_probability@crn", "filter_for_rate@crn", "choice@crn",
-            "sample_from_distribution@crn", "table@multi", "table@categorical", "table@interpolated"]
+LOOP = STATES[3:7]
+ALL_STATES = ["initialization"] + STATES
+REG = {"register_listener", "register_value_producer", "register_value_modifier", "initializes_simulants",
+       "get_simulant_creator", "get_stream", "build_table", "data.load"}
+READ = {"view.get", "pipeline", "get_draw", "filter_for_probability", "filter_for_rate", "choice", "sample_from_distribution",
+        "table", "context.get_population"}
+WRITE = {"view.update", "register_simulants", "create_simulants"}
+SUB = {"subview.get", "subview.update"}   # handles returned by PopulationView.subview (no constraint: F10)
+# every one of these must be exercised from a listener in every state (further variants appear when their handle exists)
+REQUIRED = [
+    "register_listener", "register_listener@kw", "register_listener@manager", "register_listener!bad",
+    "register_value_producer", "register_value_producer@rate", "register_value_producer@kw", "register_value_producer@manager",
+    "register_value_producer!bad", "register_value_modifier", "register_value_modifier@kw", "register_value_modifier@step_size",
+    "register_value_modifier@manager", "initializes_simulants", "initializes_simulants@kw", "initializes_simulants@manager",
+    "initializes_simulants!bad", "get_simulant_creator", "get_simulant_creator@manager", "get_stream", "get_stream@crn",
+    "get_stream@kw", "get_stream@manager", "get_stream!bad", "build_table", "build_table@frame", "build_table@kw",
+    "build_table@component", "build_table@manager", "build_table!bad",
+    "view.get", "view.get@query", "view.get@all", "view.get@str", "view.get@tuple", "view.get@manager", "view.get@extra_query",
+    "view.get@bound", "view.get@component", "view.get@popmgr", "view.get!bad",
+    "view.update", "view.update@query", "view.update@all", "view.update@frame", "view.update@manager", "view.update@bound",
+    "view.update@component", "view.update@creates_column", "view.update!bad",
+    "subview.get", "subview.update", "subview.get@nested", "subview.update@nested", "subview.get@component",
+    "pipeline", "pipeline@rate", "pipeline@get_value", "pipeline@skip_post", "pipeline@rate_skip_post", "pipeline@early",
+    "pipeline@kw_registered", "pipeline@union", "pipeline@manager", "pipeline@direct", "pipeline@bound", "pipeline@get_value_now",
+    "pipeline!bad", "pipeline@unsourced", "pipeline@nest", "pipeline@modified_first", "pipeline@framework",
+    "get_draw", "get_draw@crn", "get_draw@kw_stream", "get_draw@manager", "get_draw@additional_key", "get_draw@bound", "get_draw!bad",
+    "filter_for_probability", "filter_for_probability@crn", "filter_for_rate", "filter_for_rate@crn", "choice", "choice@crn",
+    "choice@weights", "sample_from_distribution", "sample_from_distribution@crn",
+    "table", "table@multi", "table@categorical", "table@interpolated", "table@manager", "table@component", "table@config",
+    "table@direct", "table!bad",
+    "register_simulants", "register_simulants@kw", "register_simulants@manager", "register_simulants!bad", "data.load!bad",
+    "create_simulants", "create_simulants@manager", "create_simulants@attribute", "create_simulants@kw"]
+WITH_ARTIFACT = ["data.load", "data.load@filter", "data.load@component", "data.load@manager"]
+BAD_ADDS = {"both": "err:value", "neither": "err:value", "empty_tuple": "err:value", "unknown_state": "err:lifecycle",
+            "unknown_restrict": "err:lifecycle", "twice_view_get": "err:constraint", "twice_view_update": "err:constraint",
+            "twice_stream": "err:constraint", "twice_pipeline": "err:constraint", "twice_table": "err:constraint",
+            "twice_manager": "err:constraint", "twice_manager_values": "err:constraint", "function": "err:type",
+            "dunder": "err:value", "same_name": None}
+CUSTOM_TARGETS = ["holder.m1", "holder.m2", "helper1.m", "helper3.m", "sub_user.get"]
+LATE_TARGETS = ["helper3.m", "holder.m2", "sub_user.get"]
+from ..c07_defaults import DEFAULTS, normalise  # noqa: E402,F401
 
 
 def base(service: str) -> str:
-    return service.split("@")[0]
+    return service.split("@")[0].split("!")[0]
+
+
+def cls_of(service: str) -> str:
+    b = base(service)
+    if b in REG:
+        return "registration"
+    if b in READ:
+        return "reader"
+    if b in WRITE:
+        return "writer"
+    if b in SUB:
+        return "subview"
+    return "custom"
 
 
 def rule(service: str, state: str) -> bool:
     """the property's own statement: is the service available in this state?"""
-    service = base(service)
-    if service == "sample_from_distribution":
-        service = "get_draw"      # a stream draw; constrained through get_draw
-    if service in REG:
+    c = cls_of(service)
+    if c == "registration":
         return state == "setup"
-    if service in READ or service == "subview.get":
+    if c == "reader" or base(service) == "subview.get":
         return state not in ("initialization", "setup", "post_setup")
     return state not in ("initialization", "setup", "post_setup", "simulation_end", "report")
 
 
-def _run_matrix(case):
-    impl.load()
-    import pandas as pd
-    from vivarium import Component
-    from vivarium.framework.engine import SimulationContext
-    from vivarium.framework.lifecycle import ConstraintError
+def phase(cls: str, state: str) -> str:
+    """coarse, stable part of a failure signature (one signature per class x verdict x phase, not per state)"""
+    if cls == "registration":
+        return "in-setup" if state == "setup" else ("before-setup" if state == "initialization" else "after-setup")
+    if state in ("initialization", "setup", "post_setup"):
+        return "before-creation"
+    return "after-end" if state in ("simulation_end", "report") else "while-running"
 
-    OUT = {}
-    counter = [0]
-    shared = {}
 
-    class Helper(Component):
-        def __init__(self, nm):
-            super().__init__()
-            self._nm = nm
+def custom_plan(case):
+    """which run-time constraint is in force for each user target (the FIRST valid add_constraint on a method wins, every
+    later one is refused), and what every add_constraint call of the case must answer - from the configuration alone"""
+    order = {"setup": 0, "post_setup": 1, "time_step": 2}
+    entries = sorted(enumerate(case["custom"]), key=lambda t: (order[t[1].get("when", "setup")], t[0]))
+    in_force, expect = {}, []
+    for i, c in entries:
+        if c.get("when", "setup") != "setup" and c["target"] not in LATE_TARGETS:
+            continue
+        if c["target"] in in_force:
+            expect.append((c, "err:constraint"))
+        else:
+            in_force[c["target"]] = c
+            expect.append((c, "ok"))
+    return in_force, expect
 
-        @property
-        def name(self):
-            return self._nm
 
-        def on_initialize_simulants(self, d):
-            pass
-
-    class Holder(Component):
-        """obtains the handles (at the start or the end of its setup)"""
-
-        def __init__(self, nm, early, n_extra):
-            super().__init__()
-            self._nm, self.early, self.n_extra = nm, early, n_extra
-
-        @property
-        def name(self):
-            return self._nm
-
-        @property
-        def columns_created(self):
-            return ["a", "k"]
-
-        def _noise(self, b, tag):
-            for j in range(self.n_extra):
-                b.value.register_value_producer(f"noise_{self._nm}_{tag}_{j}", source=lambda idx: pd.Series(0.0, index=idx))
-                b.randomness.get_stream(f"noise_{self._nm}_{tag}_{j}")
-                b.population.get_view(["a"])
-
-        def setup(self, b):
-            if not self.early:
-                self._noise(b, "pre")
-            h = shared
-            h["b"] = b
-            h["view"] = b.population.get_view(["a"])
-            h["view_q"] = b.population.get_view(["a", "tracked"], "a >= 0")
-            h["sub"] = h["view"].subview(["a"])
-            h["stream"] = b.randomness.get_stream("s")
-            h["stream_crn"] = b.randomness.get_stream("s_crn", initializes_crn_attributes=True)
-            h["pipe"] = b.value.register_value_producer("v", source=lambda idx: pd.Series(1.0, index=idx))
-            h["pipe_rate"] = b.value.register_rate_producer("vr", source=lambda idx: pd.Series(0.5, index=idx))
-            h["pipe_got"] = b.value.get_value("v")
-            h["view_all"] = b.population.get_view([])
-            h["table"] = b.lookup.build_table(3.0)
-            h["table_multi"] = b.lookup.build_table((1.0, 2.0), value_columns=["p", "q"])
-            h["table_cat"] = b.lookup.build_table(
-                pd.DataFrame({"a": [0, 1, 2], "value": [1.0, 2.0, 3.0]}), key_columns=["a"], value_columns=["value"])
-            h["table_interp"] = b.lookup.build_table(
-                pd.DataFrame({"k_start": [0.0, 5.0], "k_end": [5.0, 5000.0], "value": [1.0, 2.0]}),
-                parameter_columns=["k"], value_columns=["value"])
-            h["state"] = b.lifecycle.current_state()
-            if self.early:
-                self._noise(b, "post")
-
-        def on_initialize_simulants(self, d):
-            self.population_view.update(pd.DataFrame({"a": 1, "k": [float(i) for i in d.index]}, index=d.index))
-
-    class Caller(Component):
-        """issues every service call from its hook in every state"""
-
-        def __init__(self, nm):
-            super().__init__()
-            self._nm = nm
-
-        @property
-        def name(self):
-            return self._nm
-
-        def setup(self, b):
-            self.b = b
-            b.event.register_listener("report", lambda e: self.matrix("report"))
-            self.matrix("setup")
-
-        def svc(self):
-            h, b = shared, self.b
-            idx = pd.Index([0])
-            counter[0] += 1
-            n = counter[0]
-            return {
-                "register_listener": lambda: b.event.register_listener("time_step", lambda e: None),
-                "register_value_producer": lambda: b.value.register_value_producer(f"v{n}", source=lambda i: 1),
-                "register_value_modifier": lambda: b.value.register_value_modifier("v", lambda i, v: v),
-                "initializes_simulants": lambda: b.population.initializes_simulants(Helper(f"h{n}").on_initialize_simulants),
-                "get_simulant_creator": lambda: b.population.get_simulant_creator(),
-                "get_stream": lambda: b.randomness.get_stream(f"s{n}"),
-                "get_stream@crn": lambda: b.randomness.get_stream(f"sc{n}", initializes_crn_attributes=True),
-                "register_value_producer@rate": lambda: b.value.register_rate_producer(f"vr{n}", source=lambda i: 1),
-                "register_value_modifier@step_size": lambda: b.time.register_step_size_modifier(lambda i: pd.Series(pd.NaT, index=i, dtype="timedelta64[ns]")),
-                "build_table": lambda: b.lookup.build_table(1.0),
-                "build_table@frame": lambda: b.lookup.build_table(
-                    pd.DataFrame({"a": [0, 1], "value": [1.0, 2.0]}), key_columns=["a"], value_columns=["value"]),
-                "view.get": lambda: h["view"].get(idx),
-                "view.get@query": lambda: h["view_q"].get(idx),
-                "view.get@all": lambda: h["view_all"].get(idx),
-                "view.update": lambda: h["view"].update(pd.Series(1, index=idx, name="a")),
-                "view.update@query": lambda: h["view_q"].update(pd.Series(1, index=idx, name="a")),
-                "view.update@all": lambda: h["view_all"].update(pd.Series(1, index=idx, name="a")),
-                "subview.get": lambda: h["sub"].get(idx),
-                "subview.update": lambda: h["sub"].update(pd.Series(1, index=idx, name="a")),
-                "pipeline": lambda: h["pipe"](idx),
-                "pipeline@rate": lambda: h["pipe_rate"](idx),
-                "pipeline@get_value": lambda: h["pipe_got"](idx),
-                "pipeline@skip_post": lambda: h["pipe"](idx, skip_post_processor=True),
-                "pipeline@rate_skip_post": lambda: h["pipe_rate"](idx, skip_post_processor=True),
-                "view.get@extra_query": lambda: h["view"].get(idx, query="a >= 0"),
-                "choice@weights": lambda: h["stream"].choice(idx, [1, 2], p=[0.25, 0.75], additional_key="k"),
-                "get_draw@additional_key": lambda: h["stream"].get_draw(idx, additional_key="k"),
-                "get_draw": lambda: h["stream"].get_draw(idx),
-                "filter_for_probability": lambda: h["stream"].filter_for_probability(idx, 0.5),
-                "filter_for_rate": lambda: h["stream"].filter_for_rate(idx, 0.5),
-                "choice": lambda: h["stream"].choice(idx, [1, 2]),
-                "sample_from_distribution": lambda: h["stream"].sample_from_distribution(idx, ppf=lambda x: x),
-                "get_draw@crn": lambda: h["stream_crn"].get_draw(idx),
-                "filter_for_probability@crn": lambda: h["stream_crn"].filter_for_probability(idx, 0.5),
-                "filter_for_rate@crn": lambda: h["stream_crn"].filter_for_rate(idx, 0.5),
-                "choice@crn": lambda: h["stream_crn"].choice(idx, [1, 2]),
-                "sample_from_distribution@crn": lambda: h["stream_crn"].sample_from_distribution(idx, ppf=lambda x: x),
-                "table": lambda: h["table"](idx),
-                "table@multi": lambda: h["table_multi"](idx),
-                "table@categorical": lambda: h["table_cat"](idx),
-                "table@interpolated": lambda: h["table_interp"](idx),
-                "register_simulants": lambda: b.randomness.register_simulants(
-                    pd.DataFrame({"k": [float(1000 + n)]}, index=[1000 + n])),
-            }
-
-        def matrix(self, st):
-            real = shared["state"]() if "state" in shared else st
-            if real != st:
-                return
-            if st in OUT.get("__done__", set()):
-                return
-            OUT.setdefault("__done__", set()).add(st)
-            for name, f in self.svc().items():
-                if "view" not in shared:
-                    OUT[(name, st)] = "unavailable"
-                    continue
-                try:
-                    f()
-                    r = "admitted"
-                except ConstraintError:
-                    r = "refused"
-                except Exception as e:  # noqa: BLE001 - admitted by the lifecycle, failed for another reason
-                    r = "admitted:" + type(e).__name__
-                OUT[(name, st)] = r
-
-        def on_post_setup(self, e):
-            self.matrix("post_setup")
-
-        def on_initialize_simulants(self, d):
-            self.matrix("population_creation")
-
-        def on_time_step_prepare(self, e):
-            self.matrix("time_step__prepare")
-
-        def on_time_step(self, e):
-            self.matrix("time_step")
-
-        def on_time_step_cleanup(self, e):
-            self.matrix("time_step__cleanup")
-
-        def on_collect_metrics(self, e):
-            self.matrix("collect_metrics")
-
-        def on_simulation_end(self, e):
-            self.matrix("simulation_end")
-
-    holder = Holder("holder", case["early"], case["n_extra"])
-    caller = holder if False else Caller("caller")
-    comps = [holder, caller] if case["holder_first"] else [caller, holder]
-    SimulationContext._clear_context_cache()
-    cfg = {"population": {"population_size": case["pop"]},
-           "time": {"start": {"year": 2020, "month": 1, "day": 1}, "end": {"year": 2020, "month": 1, "day": 1 + case["steps"]},
-                    "step_size": 1}}
-    if case["crn"]:
-        cfg["randomness"] = {"key_columns": ["k"]}
-    sim = SimulationContext(components=comps, configuration=cfg, logging_verbosity=0)
-    err = None
-    try:
-        sim.setup()
-        sim.initialize_simulants()
-        sim.run()
-        sim.finalize()
-        sim.report(print_results=False)
-    except Exception as e:  # noqa: BLE001
-        err = f"{type(e).__name__}: {e}"
-    OUT.pop("__done__", None)
-    return {"cells": [[k[0], k[1], v] for k, v in sorted(OUT.items())], "error": err}
+def custom_admits(c, state):
+    return (state in c["states"]) if c["mode"] == "allow" else (state not in c["states"])
 
 
 class C07(Prop):
     id = "C07"
     lean_modules = ["VivModel.Props.C07"]
-    build_targets = ["VivModel.Model.Context", "VivModel.Model.Proto"]
+    build_targets = ["VivModel.Model.Context", "VivModel.Model.Services", "VivModel.Model.Proto"]
     driver = "C07"
-    technique = "Lean 4 proof (decide over the constraint table regenerated from every add_constraint call site) + exhaustive dynamic service x state matrix on real simulations"
-    n_quick = 16
-    n_thorough = 120
-    rule = ("each case is a whole simulation in which probe components issue all 42 service calls (every kind of handle: plain / "
-            "queried / whole-table views, sub-views, pipelines from register_value_producer / register_rate_producer / get_value, "
-            "ordinary and CRN-initialising streams incl. sample_from_distribution, scalar / multi-value / categorical / interpolated "
-            "lookup tables) in all 9 component-visible lifecycle states (378 cells, enumerated completely); cases vary who obtains the handles, when during setup, "
-            "component order, CRN on/off, population size; non-trivial = the matrix has both admitted and refused cells")
+    technique = ("Lean 4 proof (decide over the constraint table regenerated from every add_constraint call site; invariant proofs over "
+                 "the stateful ConstraintMaker model: once constrained, forever the same verdict) + exhaustive dynamic service x state x "
+                 "calling-context matrix on real simulations, replayed operation by operation on the model")
+    partial = ("Python's instance re-binding and dill's fidelity on re-bound methods live in the runtime: explored (every route to a "
+               "handle, backup / restore in this and in a fresh process), not proved")
+    n_quick = 22
+    n_thorough = 150
+    workers = 6
+    case_timeout = 120
+    rule = ("each case is a whole simulation in which probe components issue ~105 service calls (every kind of handle and call form: "
+            "views from the interface / the manager / Component.population_view / the population manager's own, str / tuple / empty "
+            "columns, bound methods captured at creation, views obtained after setup; pipelines from register_value_producer / "
+            "register_rate_producer / get_value before and after the source exists / the manager / InteractiveContext.get_value, "
+            "skip_post_processor, _call directly; ordinary and CRN-initialising streams incl. sample_from_distribution; scalar / multi / "
+            "categorical / interpolated / configuration-built lookup tables; positional and keyword forms; malformed calls that fail "
+            "after the check) in all 9 component-visible lifecycle states and, per case, from further calling contexts (initializers at "
+            "a birth in every loop state, inside a pipeline source / modifier incl. a re-entrant call, between the context's methods "
+            "incl. `initialization`, under run_simulation / run(backup) / InteractiveContext, after a dill backup+restore in this or a "
+            "fresh process, after differently configured earlier simulations), plus run-time add_constraint calls with generated "
+            "allow / restrict lists (list and tuple) and every refusal path; non-trivial = admitted and refused cells both present")
 
+    # ------------------------------------------------------------------------------------------------ cases
     def boundary(self):
-        out = []
+        B = []
+        # the four placements of the first version (who obtains the handles first, early / late in setup)
+        kinds = iter(["method", "object", "partial", "nameless_method"])      # every kind of listener, every run (F34)
         for early in (True, False):
-            for first in (True, False):
-                out.append({"early": early, "holder_first": first, "n_extra": 1, "crn": True, "pop": 2, "steps": 1})
-        return out
+            for order in ("hco", "cho"):
+                B.append({"early": early, "order": order, "n_extra": 1, "crn": True, "pop": 2, "steps": 1, "mode": "classic",
+                          "artifact": early, "listener_kind": next(kinds)})
+        # every calling context at once, untracked simulant in the request, shuffled call order
+        B.append({"mode": "contexts", "contexts": ["outside", "birth", "nested"], "pop": 3, "steps": 2, "untrack": True, "idx": "untracked",
+                  "late_views": True, "shuffle": True, "order_seed": 3, "listener_kind": "nameless_method"})
+        # zero-count births, empty index, empty population, no CRN
+        B.append({"mode": "contexts", "contexts": ["birth", "outside"], "birth_count": 0, "idx": "empty", "pop": 1, "crn": False})
+        B.append({"mode": "contexts", "contexts": ["birth"], "birth_count": 2, "pop": 0, "idx": "all", "drive": "run_simulation"})
+        # run-time constraints: every refusal path, allow / restrict, tuple, late additions, the shared-name object
+        B.append({"mode": "custom", "bad_adds": sorted(BAD_ADDS), "custom": [
+            {"target": "holder.m1", "mode": "allow", "states": ["time_step", "report"], "container": "tuple"},
+            {"target": "helper1.m", "mode": "restrict", "states": ["setup", "time_step"], "container": "list"},
+            {"target": "sub_user.get", "mode": "restrict", "states": ["initialization", "setup", "post_setup"], "container": "list"},
+            {"target": "helper3.m", "mode": "allow", "states": ["collect_metrics"], "container": "list", "when": "time_step"},
+            {"target": "holder.m2", "mode": "restrict", "states": ["initialization"], "container": "tuple", "when": "post_setup"},
+            {"target": "holder.m1", "mode": "allow", "states": list(ALL_STATES), "container": "list"}], "contexts": ["outside"]})
+        B.append({"mode": "custom", "bad_adds": ["same_name", "twice_view_get"], "custom": [
+            {"target": "helper3.m", "mode": "restrict", "states": list(STATES), "container": "list"}]})
+        # interactive drives
+        B.append({"mode": "interactive", "drive": "interactive", "contexts": ["outside"], "interactive": "step", "steps": 2, "form": "kw",
+                  "listener_kind": "object"})
+        B.append({"mode": "interactive", "drive": "interactive_nosetup", "contexts": ["outside", "nested"], "interactive": "take",
+                  "order": "ohc", "as_sub": True, "idx": "rev", "pop": 3, "listener_kind": "partial"})
+        # the engine's second loop (backups written on every step)
+        B.append({"mode": "classic", "drive": "run_backup", "steps": 2, "crn": False, "idx": "all", "listener_kind": "object"})
+        # backup / restore: in this process (the original context is finished off first), and in a fresh one
+        B.append({"mode": "restore", "steps": 2, "restore": {"after": 1, "fresh": False, "finish_original": True}, "contexts": ["outside"],
+                  "listener_kind": "lambda"})
+        B.append({"mode": "restore", "steps": 2, "restore": {"after": 1, "fresh": True, "hashseed": 11}, "contexts": ["birth"],
+                  "listener_kind": "partial"})
+        # process history: a finished, a half-set-up and an interactive earlier simulation with other configurations
+        B.append({"mode": "history", "custom": [{"target": "holder.m1", "mode": "allow", "states": ["time_step", "report"]},
+                                               {"target": "helper1.m", "mode": "restrict", "states": ["collect_metrics"]}], "prior": [
+            {"case": {"crn": False, "pop": 4, "order": "cho", "steps": 1, "early": False, "custom": [
+                {"target": "holder.m1", "mode": "allow", "states": ["setup"]},
+                {"target": "helper1.m", "mode": "allow", "states": ["collect_metrics"]}]}, "until": "report"},
+            {"case": {"crn": True, "pop": 1, "order": "och", "steps": 1}, "until": "post_setup"},
+            {"case": {"crn": False, "pop": 2, "steps": 2}, "until": "collect_metrics", "interactive": True}]})
+        return B
 
     def generate(self, rng: random.Random, i: int, tier: str):
-        return {"early": rng.random() < 0.5, "holder_first": rng.random() < 0.7, "n_extra": rng.randint(0, 3),
-                "crn": rng.random() < 0.6, "pop": rng.randint(1, 4), "steps": rng.randint(1, 3)}
+        mode = rng.choice(["classic", "classic", "contexts", "contexts", "interactive", "custom", "custom", "history", "restore", "late"])
+        c = {"mode": mode, "early": rng.random() < 0.5, "order": rng.choice(["hco", "hco", "hoc", "cho", "coh", "ohc", "och"]),
+             "n_extra": rng.randint(0, 2), "crn": rng.random() < 0.6, "pop": rng.choice([0, 1, 2, 2, 3, 4, 6]), "steps": rng.randint(1, 3),
+             "form": rng.choice(["pos", "kw"]), "idx": rng.choice(["one", "all", "empty", "rev", "untracked", "range"]),
+             "shuffle": rng.random() < 0.4, "order_seed": rng.randint(0, 10 ** 6), "as_sub": rng.random() < 0.2,
+             "untrack": rng.random() < 0.4,
+             "listener_kind": rng.choice(["method", "lambda", "partial", "object", "nameless_method"]),
+             "artifact": rng.random() < 0.35}
+        if c["idx"] == "untracked":
+            c["untrack"] = True
+            c["pop"] = max(c["pop"], 2)
+        if mode == "contexts":
+            c["contexts"] = rng.sample(["outside", "birth", "nested"], rng.randint(1, 3))
+            c["birth_count"] = rng.choice([0, 1, 1, 2])
+            c["drive"] = rng.choice(["manual", "manual", "run_simulation"])
+        elif mode == "interactive":
+            c["drive"] = rng.choice(["interactive", "interactive_nosetup"])
+            c["interactive"] = rng.choice(["step", "take", "run_until", "run"])
+            c["contexts"] = ["outside"] + (["nested"] if rng.random() < 0.3 else [])
+        elif mode == "custom":
+            k = rng.randint(2, 5)
+            c["custom"] = []
+            for _ in range(k):
+                tgt = rng.choice(CUSTOM_TARGETS)
+                md = rng.choice(["allow", "restrict"])
+                pool = ALL_STATES if md == "restrict" or rng.random() < 0.5 else STATES
+                st = rng.sample(pool, rng.randint(1, len(pool) if rng.random() < 0.15 else 4))
+                when = rng.choice(["setup", "setup", "post_setup", "time_step"]) if tgt in LATE_TARGETS else "setup"
+                c["custom"].append({"target": tgt, "mode": md, "states": st, "container": rng.choice(["list", "tuple"]), "when": when})
+            c["bad_adds"] = rng.sample(sorted(BAD_ADDS), rng.randint(2, 8))
+            c["contexts"] = rng.choice([[], ["outside"], ["birth"]])
+        elif mode == "history":
+            c["prior"] = []
+            for _ in range(rng.randint(1, 2)):
+                c["prior"].append({"case": {"crn": not c["crn"] if rng.random() < 0.7 else c["crn"], "pop": rng.choice([1, 3, 5]),
+                                            "order": rng.choice(["hco", "cho", "och"]), "steps": rng.randint(1, 2),
+                                            "early": not c["early"]},
+                                   "until": rng.choice(["report", "report", "post_setup", "population_creation", "collect_metrics",
+                                                        "simulation_end", "initialization"]),
+                                   "interactive": rng.random() < 0.3})
+            c["drive"] = rng.choice(["manual", "run_simulation", "interactive"])
+            # the same user methods are constrained in the earlier simulation and in this one - with DIFFERENT lists
+            for tgt in rng.sample(CUSTOM_TARGETS, 2):
+                md = rng.choice(["allow", "restrict"])
+                c.setdefault("custom", []).append({"target": tgt, "mode": md, "states": rng.sample(STATES, 3), "container": "list"})
+                for pr in c["prior"]:
+                    pr["case"].setdefault("custom", []).append(
+                        {"target": tgt, "mode": rng.choice(["allow", "restrict"]), "states": rng.sample(STATES, 2), "container": "tuple"})
+        elif mode == "restore":
+            c["steps"] = rng.randint(2, 3)
+            fresh = rng.random() < (0.35 if tier == "quick" else 0.5)
+            c["restore"] = {"after": rng.randint(0, c["steps"] - 1), "fresh": fresh, "hashseed": rng.randint(1, 99),
+                            "finish_original": rng.random() < 0.5}
+            c["contexts"] = rng.choice([[], ["outside"], ["birth"]])
+        elif mode == "late":
+            c["late_views"] = True
+            c["contexts"] = rng.choice([[], ["outside"]])
+            c["drive"] = rng.choice(["manual", "run_backup", "run_simulation"])
+        return c
 
+    # ------------------------------------------------------------------------------------------------ implementation
     def run_impl(self, case):
-        return _run_matrix(case)
+        from .. import c07_probes
+        return c07_probes.run_case(normalise(case))
+
+    # ------------------------------------------------------------------------------------------------ model
+    @staticmethod
+    def _line(e):
+        if e["e"] == "st":
+            return "st " + e["st"]
+        return " ".join(e["op"])
 
     def model_lines(self, case, obs):
-        L = []
-        for svc, st, _ in obs["cells"]:
-            b = "get_draw" if base(svc) == "sample_from_distribution" else base(svc)
-            if b in SERVICES:
-                f, m = SERVICES[b]
-                L.append(f"con {f} {m} {st}")
-            else:
-                L.append("con - subview " + st)
-        return L
+        return [self._line(e) for e in obs["events"] if not (e["e"] == "cell" and e["out"] == "unavailable")]
 
     def compare(self, case, obs, replies):
         dis = []
-        for (svc, st, r), rep in zip(obs["cells"], replies):
-            if r == "unavailable":
-                continue
-            got = r.split(":")[0]
-            if base(svc) in SUB:
-                continue   # no table entry: handled by the oracle (F10)
-            if rep != got:
-                dis.append(f"{svc} in {st}: implementation {r}, model {rep}")
+        evs = [e for e in obs["events"] if not (e["e"] == "cell" and e["out"] == "unavailable")]
+        if len(evs) != len(replies):
+            return [f"{len(evs)} operations, {len(replies)} replies"]
+        for e, rep in zip(evs, replies):
+            if e["e"] == "st":
+                want = "ok"
+            elif e["e"] in ("new", "add"):
+                want = e["out"]
+            else:
+                out = e["out"]
+                if e["op"][0] == "pcall" and out == "admitted:DynamicValueError":
+                    want = "nosource"
+                else:
+                    want = out.split(":")[0]
+            if rep != want:
+                what = e.get("svc") or self._line(e)
+                dis.append(f"{what} in {e.get('st', '-')} [{e.get('ctx', '-')}]: implementation {e.get('out', want)}, model {rep}")
+                if len(dis) >= 25:
+                    break
         return dis
 
+    # ------------------------------------------------------------------------------------------------ oracle
     def oracle(self, case, obs):
+        case = normalise(case)
         fails = []
+        seen_sig = {}
+
+        def fail(sig, msg):
+            # a handful of examples per signature is enough (the runner shrinks once per signature)
+            seen_sig[sig] = seen_sig.get(sig, 0) + 1
+            if seen_sig[sig] <= 3:
+                fails.append({"sig": sig, "msg": msg})
+
         if obs["error"]:
-            fails.append({"sig": "simulation-crashed", "msg": obs["error"]})
-        seen = {(s, st) for s, st, _ in obs["cells"]}
-        # a caller placed before the holder has no handles yet in `setup`; every other cell must be present
-        for svc in list(SERVICES) + list(SUB) + VARIANTS:
-            for st in STATES:
-                if (svc, st) not in seen:
-                    fails.append({"sig": "matrix-incomplete", "msg": f"cell {svc} x {st} was never exercised"})
-        for svc, st, r in obs["cells"]:
-            if r == "unavailable":
+            if case["listener_kind"] in ("object", "partial", "nameless_method") and obs["error"].startswith("AttributeError") \
+                    and ("__name__" in obs["error"] or "attribute 'name'" in obs["error"]):
+                fail("listener-without-name-crashes", obs["error"])
+            else:
+                fail("simulation-crashed", obs["error"])
+        for note in obs.get("notes") or []:
+            if note.startswith("prior-failed"):
+                fail("earlier-simulation-failed", f"a simulation run earlier in the process did not get as far as planned: {note}")
+        cells = [e for e in obs["events"] if e["e"] == "cell"]
+        seen = {(e["svc"], e["st"], e["ctx"]) for e in cells}
+        # ---- completeness of the matrix (what the harness promised to exercise, from the configuration)
+        if not obs["error"]:
+            for svc in REQUIRED + (WITH_ARTIFACT if case["artifact"] else []):
+                for st in STATES:
+                    if (svc, st, "listener") not in seen:
+                        fail("matrix-incomplete", f"cell {svc} x {st} was never exercised from a listener")
+            want_ctx = []
+            ctxs = case["contexts"]
+            if case["steps"] >= 1:
+                if "birth" in ctxs:
+                    want_ctx += [(st, "init@birth" if case["birth_count"] else "init@birth0") for st in LOOP]
+                if "nested" in ctxs:
+                    want_ctx += [(st, "nested@source") for st in LOOP + ["simulation_end"]]
+                    want_ctx += [(st, "nested@modifier") for st in ("time_step", "collect_metrics")]
+            if "outside" in ctxs and case["drive"] != "run_simulation":
+                outs = ["population_creation", "collect_metrics", "simulation_end", "report"]
+                if case["drive"] in ("manual", "run_backup"):
+                    outs = ["initialization", "post_setup"] + outs
+                if case["drive"] == "run_backup":       # run() takes all the steps in one call
+                    outs.remove("collect_metrics")
+                if case["drive"] == "interactive_nosetup":
+                    outs = ["initialization"] + outs
+                want_ctx += [(st, "outside") for st in outs]
+            have = {(e["st"], e["ctx"]) for e in cells}
+            for st, cx in want_ctx:
+                if (st, cx) not in have:
+                    fail("matrix-incomplete", f"no call was issued in {st} from the context {cx}")
+        # ---- the property's rule, cell by cell
+        in_force, add_expect = custom_plan(case)
+        helper1_at_setup = any(c["target"] == "helper1.m" and c.get("when", "setup") == "setup" for c in case["custom"])
+        helper2_constrained = "same_name" in case["bad_adds"] and not helper1_at_setup
+        for e in cells:
+            svc, st, ctx, out = e["svc"], e["st"], e["ctx"], e["out"]
+            if out == "unavailable":
                 continue
-            admitted = r.split(":")[0] == "admitted"
+            admitted = out.split(":")[0] == "admitted"
+            where = f"{svc} in {st} [{ctx}]"
+            if svc.startswith("custom:"):
+                tgt = svc[len("custom:"):]
+                if tgt == "helper2.m":
+                    want = (st == "report") if helper2_constrained else True
+                elif tgt in in_force:
+                    want = custom_admits(in_force[tgt], st)
+                else:
+                    fail("custom-constraint-unplanned", f"{where}: the case constrains no such method")
+                    continue
+                if admitted != want:
+                    fail(f"custom-constraint:{'admitted' if admitted else 'refused'}",
+                         f"{where}: {out}; the run-time constraint {in_force.get(tgt, 'allow report')} says {'admitted' if want else 'refused'}")
+                elif admitted and (out != "admitted" or e["chk"]) and not (tgt == "sub_user.get" and st in ("setup", "post_setup")):
+                    # (a read through a view cannot work before anybody exists, whatever the user's constraint admits)
+                    fail("admitted-call-did-not-work", f"{where}: {out} {e['chk'] or ''}")
+                continue
+            if svc == "pipeline@unsourced":
+                if out not in ("admitted:DynamicValueError", "refused"):
+                    fail("unsourced-pipeline-worked", f"{where}: {out}")
+                continue
             want = rule(svc, st)
             if admitted != want:
-                if base(svc) in SUB:
-                    sig = "subview-unconstrained"
+                if out == "admitted:DynamicValueError" and base(svc) == "pipeline" and not want:
+                    continue    # a pipeline whose source is not registered yet: refused all the same (no source, no constraint yet)
+                if cls_of(svc) == "subview":
+                    fail("subview-unconstrained", f"{where}: {out}, the property says {'admitted' if want else 'refused'}")
                 else:
-                    sig = f"{svc}:{'admitted' if admitted else 'refused'}-in-{st}"
-                fails.append({"sig": sig, "msg": f"{svc} in {st}: {r}, the property says {'admitted' if want else 'refused'}"})
+                    fail(f"{cls_of(svc)}:{'admitted' if admitted else 'refused'}-{phase(cls_of(svc), st)}",
+                         f"{where}: {out}, the property says {'admitted' if want else 'refused'}")
+                continue
+            if not admitted:
+                continue
+            # admitted where the property admits it: the service must WORK
+            if "!bad" in svc:
+                if out == "admitted":
+                    fail("harness-malformed-call-succeeded", f"{where}: the malformed call did not fail")
+                continue
+            if cls_of(svc) == "subview" or svc == "pipeline@framework":
+                continue    # (the clock's step-size pipeline raises UFuncTypeError on an empty index: not this property's business)
+            if base(svc) in ("view.update", "create_simulants") and st == "population_creation" and ctx == "listener" \
+                    and svc != "view.update@creates_column":
+                continue    # while the initial population is created an update must bring a NEW column: only @creates_column can
+                #             work (and a creation nested in the initial creation fails in the first initializer for the same reason)
+            if out != "admitted":
+                fail("admitted-call-did-not-work", f"{where}: {out}")
+            elif e["chk"]:
+                fail("wrong-result", f"{where}: {e['chk']}")
+        # ---- run-time add_constraint calls: the documented answer of every call
+        adds = [e for e in obs["events"] if e["e"] == "add"]
+        planned = [(c["target"], c["mode"], tuple(c["states"]), want) for c, want in add_expect]
+        bad_expect = {}
+        for k in case["bad_adds"]:
+            bad_expect[k] = BAD_ADDS[k] if BAD_ADDS[k] else ("err:constraint" if helper1_at_setup else "ok")
+        if not obs["error"] and any(o in case["order"] for o in "h"):
+            got_custom = [(a["op"][1], a["mode"], tuple(a["states"]), a["out"]) for a in adds
+                          if a["mode"] in ("allow", "restrict") and a["op"][1] in ("holder", "helper1", "helper3", "sub_user")
+                          and not self._is_bad_add(a)]
+            tmap = {"holder.m1": "holder", "holder.m2": "holder", "helper1.m": "helper1", "helper3.m": "helper3", "sub_user.get": "sub_user"}
+            want_custom = sorted((tmap[t], m, s, w) for t, m, s, w in planned)
+            if sorted(got_custom) != want_custom and case["steps"] >= 1:
+                fail("add-constraint-outcome", f"run-time constraints answered {sorted(got_custom)}, expected {want_custom}")
+            for a in adds:
+                k = self._is_bad_add(a)
+                if k and k in bad_expect and a["out"] != bad_expect[k]:
+                    fail("add-constraint-outcome", f"add_constraint ({k}) answered {a['out']}, documented: {bad_expect[k]}")
+        # ---- effects: a refused registration must leave no trace, an admitted one must take effect
+        fin = obs.get("final") or {}
+        for msg in fin.get("creator_grew") or []:
+            fail("refused-call-changed-state", f"simulant creator called in {msg}; outside population creation and the time steps the "
+                                               "call must be refused before anything happens")
+        if not obs["error"] and fin:
+            n_setup = sum(1 for e in cells if e["svc"] == "register_value_modifier" and e["st"] == "setup" and e["out"] != "unavailable")
+            if fin.get("mt") != 1.0 + n_setup:
+                fail("registration-effect", f"pipeline `mt`: source 1.0 and {n_setup} modifier(s) registered during setup, final value {fin.get('mt')}")
+            # initializers are counted on non-empty creations only: the initial one (if anybody is created) and real births
+            births = len(LOOP) if ("birth" in case["contexts"] and case["steps"] >= 1 and case["birth_count"] > 0) else 0
+            initial = 1 if case["pop"] > 0 else 0
+            for tag, n in sorted((fin.get("fired") or {}).items()):
+                kind, _, rest = tag.partition(":")
+                st = rest.split("|")[0].split(":")[-1]
+                if st != "setup":
+                    fail("refused-registration-had-effect", f"{tag} was registered in {st} and fired {n} time(s)")
+                elif kind.startswith("listener") and n != case["steps"]:
+                    fail("registration-effect", f"{tag}: fired {n} time(s) in {case['steps']} step(s)")
+                elif kind == "init" and n != initial + births:
+                    fail("registration-effect", f"{tag}: initializer ran {n} time(s) on somebody, expected {initial + births}")
+            reg_in_setup = {e["svc"] for e in cells if e["st"] == "setup" and e["out"] == "admitted"}
+            for svc, tag in (("register_listener", "listener:setup|listener"), ("register_listener@kw", "listener_kw:setup|listener"),
+                             ("register_listener@manager", "listener_mgr:setup|listener"), ("initializes_simulants", "init:setup|listener")):
+                if svc in reg_in_setup and tag not in (fin.get("fired") or {}) and case["steps"] >= 1 \
+                        and not (tag.startswith("init") and initial + births == 0):
+                    fail("registration-effect", f"{svc} was admitted during setup but {tag} never fired")
         return fails
 
+    @staticmethod
+    def _is_bad_add(a):
+        """which hand-written refusal probe an add event is (None = one of the case's run-time constraints)"""
+        op = a["op"]
+        o, m = op[1], op[3]
+        if a["mode"] == "both":
+            return "both"
+        if a["mode"] == "neither":
+            return "neither"
+        if a["mode"] == "allow" and not a["states"]:
+            return "empty_tuple"
+        if "no_such_state" in a["states"]:
+            return "unknown_state" if a["mode"] == "allow" else "unknown_restrict"
+        if o == "view":
+            return "twice_view_get" if m == "get" else "twice_view_update"
+        if o == "stream":
+            return "twice_stream"
+        if o == "v":
+            return "twice_pipeline"
+        if o == "table":
+            return "twice_table"
+        if o.endswith("randomness/manager.py"):
+            return "twice_manager"
+        if o.endswith("values.py"):
+            return "twice_manager_values"
+        if o == "fn":
+            return "function"
+        if m == "__call__":
+            return "dunder"
+        if o == "helper2":
+            return "same_name"
+        return None
+
+    # ------------------------------------------------------------------------------------------------ reporting
     def nontrivial(self, case, obs):
-        rs = {r.split(":")[0] for _, _, r in obs["cells"]}
+        rs = {e["out"].split(":")[0] for e in obs["events"] if e["e"] == "cell"}
         return {"admitted", "refused"} <= rs
 
     def tags(self, case, obs):
-        t = []
-        for svc, st, r in obs["cells"]:
-            t.append(r.split(":")[0])
-        t.append("crn" if case["crn"] else "no-crn")
-        t.append("early" if case["early"] else "late")
+        case = normalise(case)
+        t = ["mode:" + case["mode"], "drive:" + case["drive"], "idx:" + case["idx"], "form:" + case["form"],
+             "order:" + case["order"], "crn" if case["crn"] else "no-crn", "early" if case["early"] else "late",
+             "listener:" + case["listener_kind"], "artifact" if case["artifact"] else "no-artifact"]
+        t += ["ctx-requested:" + c for c in case["contexts"]]
+        for k in ("late_views", "untrack", "shuffle", "as_sub"):
+            if case[k]:
+                t.append(k)
+        if case["pop"] == 0:
+            t.append("empty-population")
+        if case["prior"]:
+            t += ["prior:" + p.get("until", "report") for p in case["prior"]]
+        if case["restore"]:
+            t.append("restore:fresh-process" if case["restore"].get("fresh") else "restore:in-process")
+        t += list(obs.get("notes") or [])
+        for e in obs["events"]:
+            if e["e"] == "cell":
+                t.append(e["out"].split(":")[0])
+                t.append("ctx:" + e["ctx"])
+                t.append("state:" + e["st"])
+                if ":" in e["out"]:
+                    t.append("failed-after-check:" + e["out"].split(":")[1])
+            elif e["e"] == "add":
+                t.append("add_constraint:" + e["out"])
+            elif e["e"] == "new" and e["out"] != "ok":
+                t.append("handle-creation:" + e["out"])
         return t
 
     def sample_view(self, case, obs):
-        return {"case": case, "cells": obs["cells"][:12], "n_cells": len(obs["cells"])}
+        cells = [e for e in obs["events"] if e["e"] == "cell"]
+        return {"case": case, "cells": [[e["svc"], e["st"], e["ctx"], e["out"]] for e in cells[:12]], "n_cells": len(cells),
+                "n_operations": len(obs["events"])}
 
     def shrink(self, case):
-        if case["n_extra"]:
-            yield dict(case, n_extra=0)
-        if case["steps"] > 1:
-            yield dict(case, steps=1)
-        if case["pop"] > 1:
-            yield dict(case, pop=1)
+        c = normalise(case)
+        if c["prior"]:
+            yield dict(c, prior=[])
+            if len(c["prior"]) > 1:
+                yield dict(c, prior=c["prior"][:1])
+        if c["restore"]:
+            yield dict(c, restore=None)
+        for x in c["contexts"]:
+            yield dict(c, contexts=[y for y in c["contexts"] if y != x])
+        if c["custom"]:
+            yield dict(c, custom=[], bad_adds=[])
+            for i in range(len(c["custom"])):
+                yield dict(c, custom=c["custom"][:i] + c["custom"][i + 1:])
+        if c["bad_adds"]:
+            yield dict(c, bad_adds=[])
+        if c["drive"] != "manual":
+            yield dict(c, drive="manual")
+        for k, v in (("late_views", False), ("untrack", False), ("shuffle", False), ("as_sub", False), ("n_extra", 0),
+                     ("form", "pos"), ("idx", "one"), ("order", "hco"), ("artifact", False)):
+            if c[k] != v and not (k == "untrack" and c["idx"] == "untracked"):
+                yield dict(c, **{k: v})
+        if c["steps"] > 1 and not c["restore"]:
+            yield dict(c, steps=1)
+        if c["pop"] > 2:
+            yield dict(c, pop=2)
 
 
 PROP = C07()
